@@ -19,11 +19,13 @@ var propTable = map[string]propFn{
 	"C05": checkC05,
 	"C06": checkC06,
 	"C07": checkC07,
+	"C08": checkC08,
 	"C10": checkC10,
 	"C11": checkC11,
 	"C12": checkC12,
 	"C13": checkC13,
 	"C14": checkC14,
+	"C15": checkC15,
 	"C16": checkC16,
 	"C17": checkC17,
 	"C18": checkC18,
